@@ -188,6 +188,24 @@ func D822FieldShapes(name string, maxCont int) []DField {
 	return out
 }
 
+// D822AuditFields: field shapes built from the literals a change introduced into the code (alphabet audit): as field
+// name, as first-line value, as continuation text, and as a prefix of each.
+func D822AuditFields() []DField {
+	var out []DField
+	for _, t := range AuditStrings(OneLine, 6) {
+		name := "X-Audit"
+		if Nameish(t) {
+			name = t
+		}
+		out = append(out,
+			DField{Name: name, First: t},
+			DField{Name: "A", First: t + " x", Cont: []DLine{{' ', t}, {'\t', t + " y"}}},
+			DField{Name: "A", First: "", Cont: []DLine{{' ', t}}},
+			DField{Name: name + "-x", First: "v", Cont: []DLine{{' ', "."}, {' ', " " + t}}})
+	}
+	return out
+}
+
 // D822RepFields: a small representative set of field shapes for multi-field / multi-paragraph documents.
 func D822RepFields(name string) []DField {
 	return []DField{
